@@ -78,6 +78,34 @@ claim('C20',
       'requires bond_dim = max rank.',
       'Rank over two primes < 46341 cross-checked with an exact rational rank; dense operator from as_matrix(); matrix '
       'sizes bounded (quick: L<=4 for d=2, thorough: L<=6).')
+claim('C11',
+      'TLC exhaustive model checking of the staged block-QR machine BondOps.tla with provenance-tagged matrices (all '
+      'shapes <= 3x3 quick / 4x4 thorough, all charge vectors over a 3-letter alphabet, three negative controls) + TLC '
+      'trace validation (TraceBondOps.tla) of real qr calls: exact Gaussian-integer identities on monomial instances, '
+      'supports / charges / dimension bound on generic ones',
+      'The machine mirrors bond_ops.qr statement group by statement group (dummy bond, conditional stable sort, per-charge '
+      'blocks, un-sort); under the kernel contract of a dense QR, TLC proves for every layout of the universe that in the '
+      'ORIGINAL index order the product of the factors is A, Q is an isometry, both factors are block sparse under the '
+      'returned charges and D <= min(m,n); the un-sorting / offset / dummy-charge slips are shown to violate. Every '
+      'layout is replayed through the real qr: on monomial entries TLC evaluates Q R = A and Q^H Q = 1 exactly over '
+      'Gaussian integers; on generic real/complex/rank-deficient/integer-dtype entries TLC checks supports, charges and '
+      'the block-wise dimension bound, and the residuals enter as ok+exponent (mode N).',
+      'Kernel contract of numpy.linalg.qr; mode-N bounds 1e-10; alphabet {-1,0,2} and its 2^16-scaled image; random '
+      'larger shapes up to 23x15.')
+claim('C12',
+      'TLC exhaustive model checking of the staged block-SVD machine with nondeterministic block spectra and the exact '
+      'rational truncation rule (BondOps.tla, Kind = svd) + TLC trace validation (TraceBondOps.tla) of '
+      'retained_bond_indices on all weight vectors of a bounded universe, of split_matrix_svd on generalized permutation '
+      'matrices (exact) and generic spectra (mode N), and of split_mps_tensor',
+      'TruncationOK (discarded weight <= tol, kept >= discarded, maximality, tol=0 keeps exactly the non-zero values) is '
+      'model checked over all layouts x block spectra x tolerances together with product / isometry / sparsity, and the '
+      'machine is shown equal to the closed form KeepAllowed. The real retained_bond_indices is run on every weight '
+      'vector of length <= 4-5 over {0,1,4,9} and tolerances p/12 plus tolerances equal to a cumulative weight; '
+      'split_matrix_svd on exact instances must keep exactly an allowed multiset, with || A - u s v ||^2 = discarded '
+      'weight and both isometries evaluated exactly by TLC; generic instances are checked against an independent dense '
+      'SVD (mode N); inputs are digested before/after.',
+      'Kernel contract of numpy.linalg.svd; boundary tolerances only where float arithmetic is exact; split_mps_tensor '
+      'clauses are mode-N flags computed by the harness (1e-9).')
 
 def main():
     props = [json.loads(l) for l in open(os.path.join(VERIF, 'properties.jsonl'))]
